@@ -1,7 +1,8 @@
 (** * C14 — File handles obey the Read, Write and Seek contracts (pinned statements). *)
 From stdpp Require Import list.
 From Coq Require Import NArith ZArith.
-From VFS Require Import Core.Types Base.Handles Proofs.HandleProofs.
+From stdpp Require Import gmap.
+From VFS Require Import Core.Types Core.Calls Base.MemFS Base.Handles Base.Store Proofs.HandleProofs Proofs.MemPublic.
 Local Open Scope Z_scope.
 
 (** the read handle of MemoryFS is, call by call, a cursor over the file's bytes *)
@@ -65,6 +66,30 @@ Example C14_example :
   mem_reader_read [1;2;3;4;5]%N 9 4 = (Ok [], 9).
 Proof. vm_compute. repeat split; reflexivity. Qed.
 
+(** the write handle at the level of the store: a write that fits (ends at most [isize::MAX] bytes in) only moves the
+    handle's own cursor and buffer - nothing is published before flush or drop ... *)
+Theorem C14_write_is_private : forall lg ft (s : gmap (list (list N)) memfile) hs h dest buf pos data,
+  hs !! h = Some (HMemWriter 0 dest buf pos) -> data <> [] ->
+  pos + Z.of_nat (length data) <= i64_max ->
+  handle_op h (HWrite data) (mstore s hs lg ft) =
+  (mstore s (<[h := HMemWriter 0 dest (fst (cursor_write buf pos data)) (snd (cursor_write buf pos data))]> hs) lg ft,
+   Ok (N.of_nat (length data))).
+Proof. exact refine_write. Qed.
+
+(** ... and a non-empty write that would end beyond that (after a seek far past the end) is refused with an I/O error:
+    no panic, nothing written, handle and filesystem as before (repair 14b1c2a; the unrepaired handle panicked with
+    "capacity overflow") *)
+Theorem C14_write_beyond_capacity_is_refused : forall lg ft (s : gmap (list (list N)) memfile) hs h dest buf pos data,
+  hs !! h = Some (HMemWriter 0 dest buf pos) -> data <> [] ->
+  i64_max < pos + Z.of_nat (length data) ->
+  handle_op h (HWrite data) (mstore s hs lg ft) = (mstore s hs lg ft, fail EIo).
+Proof. exact refine_write_too_large. Qed.
+
+Example C14_capacity_example :
+  handle_op 0 (HWrite [120%N]) (mstore mem_new [HMemWriter 0 [[102%N]] [97%N] 18446744073709551615] [] None) =
+  (mstore mem_new [HMemWriter 0 [[102%N]] [97%N] 18446744073709551615] [] None, fail EIo).
+Proof. eapply refine_write_too_large; [reflexivity|discriminate|reflexivity]. Qed.
+
 Print Assumptions C14_reader_read.
 Print Assumptions C14_reader_seek.
 Print Assumptions C14_seek_before_start.
@@ -77,3 +102,6 @@ Print Assumptions C14_create_session.
 Print Assumptions C14_append_session.
 Print Assumptions C14_gap_zero_filled.
 Print Assumptions C14_example.
+Print Assumptions C14_write_is_private.
+Print Assumptions C14_write_beyond_capacity_is_refused.
+Print Assumptions C14_capacity_example.
